@@ -28,7 +28,7 @@ import re
 from .common import *
 from ..callgraph import CallGraph
 from ..writers import field_writers
-from ..tables import decided, canon, cdec
+from ..tables import decided, canon, cdec, holds
 
 LEVEL = 'other'
 HOP_SOURCES = {'trippy_core::state::Hop::addrs': 0, 'trippy_core::state::Hop::addrs_with_counts': 0}
@@ -583,9 +583,7 @@ def run(chk, tier):
             return None
         x = 'field:0(%s)' % PV
         # unsigned: x > 0, x >= 1, x != 0, 0 < x … are one decision (canonical form)
-        k_, v_ = canon('Gt(%s, 0)' % x, 1)
-        cd_ = cdec(decisions)
-        pos = None if cd_.get(k_) not in (0, 1) else int(cd_[k_] == v_)
+        pos = holds(decisions, 'Gt(%s, 0)' % x)
         if pos is None:
             for a_, v_ in dec:
                 if a_ == x:                                   # an integer match on the value itself
